@@ -31,3 +31,51 @@ package db
 // (end is the prefix limit computed by bytesPrefix, or the caller's explicit end).
 //@ func (*itBase).checkKey [C06,C07]
 //@   ensures result <==> (isnil(it.start) || blexle(bytes(it.start), bytes(key))) && (isnil(it.end) || blexlt(bytes(key), bytes(it.end)))
+
+// ---- C09: MVCC key codec ---------------------------------------------------------------------------
+//@ import decimal.smt2
+//@ smt (declare-const str_mvccdata Bytes)
+//@ smt (assert (and (= (blen str_mvccdata) 10) (= (bat str_mvccdata 0) 46) (= (bat str_mvccdata 1) 45) (= (bat str_mvccdata 2) 109) (= (bat str_mvccdata 3) 118) (= (bat str_mvccdata 4) 99) (= (bat str_mvccdata 5) 99) (= (bat str_mvccdata 6) 45) (= (bat str_mvccdata 7) 46) (= (bat str_mvccdata 8) 100) (= (bat str_mvccdata 9) 46)))
+//@ smt (declare-const str_dot Bytes)
+//@ smt (assert (and (= (blen str_dot) 1) (= (bat str_dot 0) 46)))
+//@ smt (define-fun dprefix ((k Bytes)) Bytes (bcat (bcat str_mvccdata k) str_dot))
+//@ smt (define-fun dkey ((k Bytes) (v Int)) Bytes (bcat (dprefix k) (dec20 v)))
+//@ trusted func strconv.FormatInt
+//@   frame nothing
+//@   ensures base == 10 ==> result == decstr(i)
+
+//@ func pad [C09]
+//@   frame allocates
+//@   ensures len(result) == 20
+//@   ensures version >= 0 ==> bytes(result) == dec20(version)
+
+//@ func GetKeyPerfix [C09]
+//@   opt overflow=assumed
+//@   frame allocates
+//@   ensures bytes(result) == dprefix(bytes(key))
+
+//@ func GetKey [C09]
+//@   opt overflow=assumed
+//@   frame allocates
+//@   ensures result1 == nil
+//@   ensures version >= 0 ==> bytes(result0) == dkey(bytes(key), version)
+
+// ---- C09: versioned reads --------------------------------------------------------------------------
+// Lister.List(prefix, key, 1, ListSeek) with a non-empty key: the greatest live key <= key under
+// the prefix, as the pair [key, value] (trusted here; the list helper is the subject of C07).
+//@ trusted func (Lister).List
+//@   frame allocates
+//@   ensures result1 == nil && count == 1 && direction == 2 && len(key) != 0 ==> len(result0) == 2 && recv.kvhas[bytes(result0[0])] && bytes(result0[1]) == recv.kvval[bytes(result0[0])]
+//@   ensures result1 == nil && count == 1 && direction == 2 && len(key) != 0 ==> bhasprefix(bytes(result0[0]), bytes(prefix)) && blexle(bytes(result0[0]), bytes(key))
+//@ pure func strconv.ParseInt
+//@ pure func getVersion
+
+// The value returned was written under this very key: the data key found has exactly the shape
+// dprefix(key) ++ 20 digits (a longer key with the same prefix belongs to another user key, e.g.
+// "a.0" when reading "a"), at a version not above the one asked for.
+//@ func (*SimpleMVCC).GetV [C09]
+//@   opt safety=assumed overflow=assumed
+//@   assert@call List: bytes(arg1) == dprefix(bytes(key)) && arg3 == 1 && arg4 == 2 && (version >= 0 ==> bytes(arg2) == dkey(bytes(key), version))
+//@   ensures result1 == nil ==> ret0(getVersion) <= version && ret1(getVersion) == nil
+//@   ensures result1 == nil ==> len(ret0(List)[0]) == len(key) + 31
+//@   ensures result1 == nil ==> result0 == ret0(List)[1]
